@@ -50,9 +50,9 @@ EXTRA = [1e16, 1.7976931348623157e308, 2.2250738585072014e-308, 1234567890123456
 
 WRITERS = ['to_tsv', 'direct_io', 'str', 'convert_h5in', 'convert_jsonin']
 CHEAP_WRITERS = WRITERS[:3]
-READERS = ['lines', 'lines_nl', 'stringio', 'file_handle', 'load_path', 'load_gz', 'parse_handle',
-           'convert_hdf5', 'convert_json']
-CHEAP_READERS = READERS[:7]
+READERS = ['lines', 'lines_nl', 'lines_blank_end', 'stringio', 'stringio_blank_end', 'file_handle', 'load_path',
+           'load_gz', 'parse_handle', 'convert_hdf5', 'convert_json']
+CHEAP_READERS = READERS[:9]
 
 
 # ------------------------------------------------------------------------- id styles
@@ -474,8 +474,16 @@ def check(case, acc, tmp):
                 elif rd == 'lines_nl':
                     r = Table.from_tsv(s.splitlines(True), None, None, inv)
                     processed = True
+                elif rd == 'lines_blank_end':
+                    # what (text + '\n').split('\n') gives: a trailing empty string
+                    r = Table.from_tsv(s.splitlines() + [''], None, None, inv)
+                    processed = True
                 elif rd == 'stringio':
                     r = Table.from_tsv(io.StringIO(s), None, None, inv)
+                    processed = True
+                elif rd == 'stringio_blank_end':
+                    # the same text followed by an empty line, as many editors leave it
+                    r = Table.from_tsv(io.StringIO(s + ('\n\n' if not s.endswith('\n') else '\n')), None, None, inv)
                     processed = True
                 elif rd == 'file_handle':
                     with open(path, encoding='utf-8') as fh:
